@@ -14,7 +14,9 @@ Proof.
   destruct (started (T s t)) eqn:Hst; cbn [negb] in H; [|discriminate].
   destruct (Nat.ltb_spec 0 (refs (T s t))) as [Hr|Hr]; cbn [negb orb] in H; [|discriminate].
   destruct (mustfree (T s t)) eqn:Hmf; [discriminate|]. cbn [orb] in H.
-  destruct (lends_from s t) eqn:Hlf; [discriminate|].
+  destruct (lends_from s t && Nat.leb (refs (T s t)) 1) eqn:Hlf0; [discriminate|].
+  assert (Hlf : lends_from s t = false \/ 2 <= refs (T s t)).
+  { apply andb_false_iff in Hlf0. destruct Hlf0 as [H0|H0]; [left; exact H0|right; apply Nat.leb_gt in H0; lia]. }
   destruct (live s) eqn:Hl; cbn [negb] in H; [|discriminate].
   injection H as <-.
   destruct (J1 s I Hl) as [Hne Hv].
@@ -57,7 +59,7 @@ Proof.
         -- (* a borrower: its lender holds a reference; all references are ours; but we are not lending *)
            exfalso. destruct (lend (T s h)) as [|p] eqn:El; [contradiction|].
            destruct (J10 s I h p El) as (_ & _ & Hrp & _).
-           destruct (Nat.eq_dec p t) as [->|Hpt]; [exact (lends_from_false s t h Hlf El)|].
+           destruct (Nat.eq_dec p t) as [->|Hpt]; [destruct Hlf as [Hlf|H2]; [exact (lends_from_false s t h Hlf El)|lia]|].
            specialize (Hall0 p Hpt). lia.
       * intros w. rewrite HT. destruct (Nat.eqb_spec w t); [auto|]. intros Hw.
         destruct (J4 s I w Hw) as (_ & H0 & _). lia.
@@ -79,5 +81,11 @@ Proof.
   - (* J8 *) intros u. rewrite HT. destruct (Nat.eqb_spec u t) as [->|Hne']; cbn [started x']; [discriminate|].
     apply (J8 s I u).
   - intros _ H0. exists t. rewrite HT, Nat.eqb_refl. cbn [mustfree x']. apply Nat.eqb_eq. lia.
-  - apply J10_upd; auto. intros (c & Hc). exfalso. exact (lends_from_false s t c Hlf Hc).
+  - apply J10_upd; auto. intros (c & Hc). destruct Hlf as [Hlf|H2]; [exfalso; exact (lends_from_false s t c Hlf Hc)|].
+    cbn [refs excl x']. split; [lia|reflexivity].
+  - apply J11_cons; auto.
+    + unfold hb. cbn [wt we m clk x']. lia.
+    + intros u. rewrite HT. cbn [val m]. destruct (Nat.eqb_spec u t) as [->|Hne']; cbn [refs x'].
+      * lia.
+      * pose proof (T2_le_total s u t Hne'). lia.
 Qed.
